@@ -41,6 +41,12 @@ type kv interface {
 	perWatchStream() bool // every Watch opens its own Atomix event stream (proposal store)
 }
 
+// kvValues is implemented by the stores that keep part of a record (the path values) in a second Atomix
+// primitive: valueTag reads the tag that the last stored full update left there
+type kvValues interface {
+	valueTag(ctx context.Context, key string) (uint64, error)
+}
+
 // ---- v2 transaction store
 type kvTx struct {
 	s   txv2.Store
@@ -188,6 +194,16 @@ func (k *kvCfg) get(ctx context.Context, key string) (*rec, error) {
 	}
 	return &rec{obj: c, ver: c.Version, tag: uint64(c.Status.Proposed.Index)}, nil
 }
+func (k *kvCfg) valueTag(ctx context.Context, key string) (uint64, error) {
+	c, err := k.s.Get(ctx, configapi.ConfigurationID(key))
+	if err != nil {
+		return 0, err
+	}
+	if pv := c.Values["/foo"]; pv != nil {
+		return uint64(pv.Index), nil
+	}
+	return 0, nil
+}
 func (k *kvCfg) update(ctx context.Context, r *rec, tag uint64, status bool) (*rec, error) {
 	b, _ := r.obj.(*configapi.Configuration).Marshal()
 	c := &configapi.Configuration{}
@@ -253,6 +269,16 @@ func (k *kvCfg3) get(ctx context.Context, key string) (*rec, error) {
 	}
 	return &rec{obj: c, ver: c.Version, tag: uint64(c.Committed.Ordinal)}, nil
 }
+func (k *kvCfg3) valueTag(ctx context.Context, key string) (uint64, error) {
+	c, err := k.s.Get(ctx, cfg3ID(key))
+	if err != nil {
+		return 0, err
+	}
+	if pv, ok := c.Committed.Values["/foo"]; ok {
+		return uint64(pv.Index), nil
+	}
+	return 0, nil
+}
 func (k *kvCfg3) update(ctx context.Context, r *rec, tag uint64, status bool) (*rec, error) {
 	b, _ := r.obj.(*configapiv3.Configuration).Marshal()
 	c := &configapiv3.Configuration{}
@@ -263,6 +289,7 @@ func (k *kvCfg3) update(ctx context.Context, r *rec, tag uint64, status bool) (*
 	if status {
 		err = k.s.UpdateStatus(ctx, c)
 	} else {
+		c.Committed.Values = map[string]configapiv3.PathValue{"/foo": {Path: "/foo", Index: configapiv3.Index(tag), Value: configapiv3.TypedValue{Bytes: []byte(fmt.Sprint(tag)), Type: configapiv3.ValueType_STRING}}}
 		err = k.s.Update(ctx, c)
 	}
 	if err != nil {
@@ -297,6 +324,7 @@ type c15In struct {
 	Key     string
 	ReadVer uint64
 	Tag     uint64
+	Full    bool // update: Update (true) or UpdateStatus (false)
 }
 type c15Out struct {
 	OK       bool
@@ -348,7 +376,10 @@ var c15Model = porcupine.Model{
 				// two writers that read the same version cannot both get here: the second sees s.Ver != ReadVer
 				return s.Exists && s.Ver == i.ReadVer && o.Ver > s.Ver, c15State{true, o.Ver, i.Tag}
 			}
-			return !s.Exists || s.Ver != i.ReadVer, s
+			// a refused update leaves the state as it is. The property does not promise that an update from
+			// the current version succeeds (the configuration stores refuse some: their path-value
+			// transaction can conflict with a stale writer's), so a refusal is always legal
+			return true, s
 		}
 		return false, s
 	},
@@ -480,7 +511,7 @@ func c15Run(c *fw.Case, kind string) {
 					time.Sleep(time.Duration(cr.Intn(300)) * time.Microsecond)
 				}
 				switch x := cr.Intn(10); {
-				case x < 2 || last[key] == nil && x < 5:
+				case x < 2 || last[key] == nil && x < 4:
 					tag := atomic.AddUint64(&tagSeq, 1)
 					in := c15In{Kind: "create", Key: key, Tag: tag}
 					call := tick()
@@ -491,7 +522,9 @@ func c15Run(c *fw.Case, kind string) {
 						last[key] = rc
 					}
 					record(cl, in, call, out)
-				case x < 5:
+				case x < 5 || last[key] == nil:
+					// (a client that has no copy of the record yet reads it: every client must become a writer
+					// of every key, or there is no contention on the version check)
 					in := c15In{Kind: "get", Key: key}
 					call := tick()
 					rc, err := s.get(ctx, key)
@@ -502,13 +535,11 @@ func c15Run(c *fw.Case, kind string) {
 					}
 					record(cl, in, call, out)
 				default:
-					if last[key] == nil {
-						continue
-					}
 					tag := atomic.AddUint64(&tagSeq, 1)
-					in := c15In{Kind: "update", Key: key, ReadVer: last[key].ver, Tag: tag}
+					statusOnly := cr.Chance(1, 2)
+					in := c15In{Kind: "update", Key: key, ReadVer: last[key].ver, Tag: tag, Full: !statusOnly}
 					call := tick()
-					rc, err := s.update(ctx, last[key], tag, cr.Chance(1, 2))
+					rc, err := s.update(ctx, last[key], tag, statusOnly)
 					out := classify(err)
 					if rc != nil {
 						out.Ver, out.Tag = rc.ver, tag
@@ -542,6 +573,15 @@ func c15Run(c *fw.Case, kind string) {
 	}
 	wg.Wait()
 	c.Count("operations", int64(len(history)))
+	for _, o := range history {
+		if in := o.Input.(c15In); in.Kind == "update" {
+			if out := o.Output.(c15Out); out.OK {
+				c.Count("updates_accepted", 1)
+			} else if out.Conflict {
+				c.Count("stale_updates_refused", 1)
+			}
+		}
+	}
 	// 1. linearizability of every key's sub-history against the versioned CAS register
 	res, info := porcupine.CheckOperationsVerbose(c15Model, history, 60*time.Second)
 	c.Count("histories_checked", 1)
@@ -587,6 +627,40 @@ func c15Run(c *fw.Case, kind string) {
 				return
 			}
 			c.Count("log_indexes_checked", 1)
+		}
+	}
+	// 2b. stores that keep the path values in a second primitive: at quiescence they hold what the last accepted
+	//     full update wrote (accepted full updates are ordered by the version chain, so anything else was
+	//     left there by an update that was refused)
+	if vs, ok := stores[0].(kvValues); ok {
+		for _, k := range keys {
+			var lastFull, lastFullVer uint64
+			refusedFull := map[uint64]string{}
+			for _, o := range history {
+				in, out := o.Input.(c15In), o.Output.(c15Out)
+				if in.Key != k || in.Kind != "update" || !in.Full {
+					continue
+				}
+				if out.OK && out.Ver > lastFullVer {
+					lastFull, lastFullVer = in.Tag, out.Ver
+				}
+				if !out.OK {
+					refusedFull[in.Tag] = fmt.Sprintf("client %d [%d,%d] %+v -> %+v", o.ClientId, o.Call, o.Return, in, out)
+				}
+			}
+			got, err := vs.valueTag(context.Background(), k)
+			if err != nil {
+				continue
+			}
+			c.Count("final_values_compared", 1)
+			if got != lastFull {
+				msg := fmt.Sprintf("record %s: the last accepted Update (version %d) stored path value tag %d, but the store holds tag %d", k, lastFullVer, lastFull, got)
+				if r, ok := refusedFull[got]; ok {
+					msg += "; that tag belongs to an Update that was refused: " + r
+				}
+				c.Violate("lost-update", "store/"+kind+"/refused-update-overwrote-path-values", msg, nil)
+				break // (the watcher part below is still evaluated)
+			}
 		}
 	}
 	// 3. every live watcher is eventually shown the final version of every record it is entitled to; the
@@ -903,7 +977,7 @@ func init() {
 		Assumptions: []string{"the Atomix in-memory test runtime is a faithful Atomix; watchers subscribed before the writers start are given 150 ms to register on every partition (the Atomix client returns from Events after the first partition's acknowledgement)",
 			"an operation that failed with an error other than conflict / already-exists / not-found is left out of the history (it may or may not have taken effect); none was observed in development"},
 		DistinctSet: "history_shape", CaseTimeout: 300e9,
-		Floors:      map[string]int64{"operations": 8000, "histories_checked": 40, "live_watchers_complete": 150, "racing_update_pairs": 200},
+		Floors:      map[string]int64{"operations": 8000, "histories_checked": 40, "live_watchers_complete": 150, "racing_update_pairs": 200, "stale_updates_refused": 1000, "updates_accepted": 1000},
 		Cases: func(tier string) int {
 			if tier == "thorough" {
 				return 3000
